@@ -353,5 +353,12 @@ def pol_greedy(ctx):
     return act.astype(np.int16)
 
 
+def pol_lazy(ctx):
+    """Nobody ever leaves the depot (the depot is always legal): the tour is never finished, so the episode can only
+    end through the step limit."""
+    V = _mask(ctx).shape[0]
+    return np.zeros(V, np.int16)
+
+
 def policies(P):
-    return {"collide": pol_collide, "complete": pol_complete, "greedy": pol_greedy}
+    return {"collide": pol_collide, "complete": pol_complete, "greedy": pol_greedy, "lazy": pol_lazy}
